@@ -565,7 +565,8 @@ def r06_17(run, model):
             continue
         n += 1
         t = callee_tail(c["callee"])
-        if t in FILT:
+        if t in FILT and not re.search(r"option::Option|mem::(take|replace|swap)|collections::(Hash|BTree)|indexmap::", c["callee"]):
+            # (Option::take / mem::take move a value out, maps are not sequences of clauses)
             k += 1
             fn_ = re.sub(r"(::\{closure#\d+\})+$", "", c["caller"]).split("::")[-1]
             run.ob("R06.17", f"{fn_}|{t} on a collection of Go syntax", False, site(GOC, [c["line"]]),
